@@ -242,33 +242,81 @@ theorem C04_store_reset_skipped_leaks :
     (decodeStatementAt true [] 0 [] prev).map (fun r => (r.1.vals.length, r.1.stringRelated)) = some (0, false) ∧
     (decodeStatementAt true [] 0 [] prev).map (fun r => storeText none fmt err [] r.1) = some ([69], 1) := by decide
 
-/-- **sanitiser.** The sink text is the message with exactly the bytes failing the printable predicate replaced by
-    `\xHH` (backslash, `x`, two upper-case hex digits of the byte), every other byte kept, order kept; … -/
-theorem C04_sanitize_spec (p : Printable) (s : Bytes) :
-    sanitize p s = s.flatMap (fun b => if p.ok b then [b] else [92, 120, hexUpper (b.toNat / 16), hexUpper (b.toNat % 16)]) :=
-  sanitize_eq_flatMap p s
-
-/-- … it is the identity on a message whose bytes are all printable, and only on those; … -/
-theorem C04_sanitize_id (p : Printable) (s : Bytes) : sanitize p s = s ↔ s.all p.ok = true := by
-  constructor
-  · intro h
-    have hl := flatMap_length p s
-    rw [← sanitize_eq_flatMap, h] at hl
-    have h0 : (s.filter (fun b => !p.ok b)).length = 0 := by omega
+/-- **sanitiser, for EVERY predicate.** `BackendOptions::check_printable_char` is any `bool(char)` the user supplies.
+    For every such `ok` and every message: the sink text is the message with exactly the bytes failing `ok` replaced by
+    `\xHH` (backslash, `x`, two upper-case hex digits of the byte), every other byte kept, order kept — wherever in the
+    byte range the rejected bytes lie (inside printable ASCII too); … -/
+theorem C04_sanitize_any_predicate (ok : UInt8 → Bool) (s : Bytes) :
+    sanitizeBy ok s = s.flatMap (fun b => if ok b then [b] else [92, 120, hexUpper (b.toNat / 16), hexUpper (b.toNat % 16)]) ∧
+    (sanitizeBy ok s = s ↔ s.all ok = true) ∧
+    (sanitizeBy ok s).length = s.length + 3 * (s.filter (fun b => !ok b)).length := by
+  refine ⟨sanitizeBy_eq_flatMap ok s, ⟨fun h => ?_, fun h => by unfold sanitizeBy; simp [h]⟩, ?_⟩
+  · have hl := flatMapBy_length ok s
+    rw [← sanitizeBy_eq_flatMap, h] at hl
+    have h0 : (s.filter (fun b => !ok b)).length = 0 := by omega
     have hnil := List.eq_nil_of_length_eq_zero h0
     rw [List.all_eq_true]
     intro b hb
-    cases hc : p.ok b with
+    cases hc : ok b with
     | true => rfl
     | false =>
-      have : b ∈ s.filter (fun b => !p.ok b) := List.mem_filter.mpr ⟨hb, by simp [hc]⟩
+      have : b ∈ s.filter (fun b => !ok b) := List.mem_filter.mpr ⟨hb, by simp [hc]⟩
       rw [hnil] at this; exact absurd this List.not_mem_nil
-  · intro h; unfold sanitize; simp [h]
+  · rw [sanitizeBy_eq_flatMap]; exact flatMapBy_length ok s
+
+/-- **why the detection loop may not shortcut printable ASCII** (the variant `sanitizeDetectShortcut`, refuted by a
+    concrete witness): with a predicate that also rejects `|`, the message `a|b` must become `a\x7Cb`; the variant, which
+    does not ask the predicate about bytes in `' '..'~'` while looking for something to escape, leaves it alone — and
+    escapes the very same `|` as soon as a control byte is present too. -/
+theorem C04_sanitize_shortcut_misses :
+    let ok : UInt8 → Bool := fun b => decide (32 ≤ b.toNat) && decide (b.toNat ≤ 126) && b != 124
+    sanitizeBy ok [97, 124, 98] = [97, 92, 120, 55, 67, 98] ∧
+    sanitizeDetectShortcut ok [97, 124, 98] = [97, 124, 98] ∧
+    sanitizeDetectShortcut ok [97, 124, 9] = [97, 92, 120, 55, 67, 92, 120, 48, 57] := by decide
+
+/-- the same three facts for the default predicate shape (`lo ≤ c ≤ hi` or one of `extra`, extracted): the sink text is
+    the message with exactly the bytes failing the printable predicate replaced by `\xHH`; … -/
+theorem C04_sanitize_spec (p : Printable) (s : Bytes) :
+    sanitize p s = s.flatMap (fun b => if p.ok b then [b] else [92, 120, hexUpper (b.toNat / 16), hexUpper (b.toNat % 16)]) :=
+  (C04_sanitize_any_predicate p.ok s).1
+
+/-- … it is the identity on a message whose bytes are all printable, and only on those; … -/
+theorem C04_sanitize_id (p : Printable) (s : Bytes) : sanitize p s = s ↔ s.all p.ok = true :=
+  (C04_sanitize_any_predicate p.ok s).2.1
 
 /-- … and it grows the message by three bytes per replaced byte. -/
 theorem C04_sanitize_length (p : Printable) (s : Bytes) :
-    (sanitize p s).length = s.length + 3 * (s.filter (fun b => !p.ok b)).length := by
-  rw [sanitize_eq_flatMap]; exact flatMap_length p s
+    (sanitize p s).length = s.length + 3 * (s.filter (fun b => !p.ok b)).length :=
+  (C04_sanitize_any_predicate p.ok s).2.2
+
+/-- **a set is seen in the order it was encoded.** The codec of `std::set` / `std::multiset` writes the elements in the
+    container's iteration order — the order of ITS comparator, default or not — and the backend must see them in that
+    order (it rebuilds the container with the rebound comparator: obligation `codec_set_order`): the view of a decoded
+    sequence container of any family is the list of its elements' views in encode order, never re-sorted. -/
+theorem C04_set_view_in_encode_order (old : Mem) (ki : KindInfo) (es : Shape) (elems : List Arg) (pos : Nat) (rest : Bytes)
+    (h : wf (.seq ki es elems) = true) :
+    decode (shapeOf (.seq ki es elems)) pos (enc old pos (.seq ki es elems) ++ rest) = some (.seq (viewL elems), rest) := by
+  have := decode_spec old (.seq ki es elems) pos rest h
+  simpa [view] using this
+
+/-- the arithmetic values of a decoded sequence, in the order the backend sees them -/
+def primSeq : Val → List Nat
+  | .seq l => l.filterMap (fun v => match v with | .prim b => some (leVal b) | _ => none)
+  | _ => []
+
+/-- ascending insertion sort (structural, so that `decide` can run it) -/
+def sortAsc : List Nat → List Nat
+  | [] => []
+  | x :: xs => (sortAsc xs).takeWhile (· < x) ++ x :: (sortAsc xs).dropWhile (· < x)
+
+/-- witness: a `std::set<int32_t, std::greater<>>` holding 3, 2, 1 is seen as 3, 2, 1; a decode that re-sorts
+    ascending (`sortAsc`) would show 1, 2, 3 — not what the call site formats -/
+theorem C04_resorting_decode_differs :
+    let a : Arg := .seq { hasPrefix := true, fastSize := true, fastEncode := false, pushCount := false, mapLike := false, pairTemp := false }
+      (.prim .arith 4) [.prim .arith [3, 0, 0, 0], .prim .arith [2, 0, 0, 0], .prim .arith [1, 0, 0, 0]]
+    (decode (shapeOf a) 0 (enc (fun _ => 0) 0 a)).map (fun r => primSeq r.1) = some [3, 2, 1] ∧
+    primSeq (view a) = [3, 2, 1] ∧
+    (decode (shapeOf a) 0 (enc (fun _ => 0) 0 a)).map (fun r => sortAsc (primSeq r.1)) = some [1, 2, 3] := by decide
 
 /-- **text = call-site formatting — partial.** Full statement (not provable here, libfmt is not modelled):
     `sinkText = sanitize (fmtquill::format fmtStr args…)`. Proved: for *every* function `fmt` of the format string and
